@@ -183,6 +183,17 @@ def crate_of(fnp):
     return m.group(1) if m else "?"
 
 
+def kind_family(kind):
+    """Site kinds that one and the same source construct produces depending on the static type it is applied to
+    (`v[i]` on a Vec is a call of Index::index, on a slice a bounds-check assert) are one family for the move budget."""
+    if kind.startswith("call:index:") or kind.startswith("assert:BoundsCheck"):
+        return "index"
+    if kind.startswith("call:core::option::Option::unwrap") or kind.startswith("call:core::option::Option::expect") \
+            or kind.startswith("call:core::result::Result::unwrap") or kind.startswith("call:core::result::Result::expect"):
+        return "unwrap"
+    return kind
+
+
 def moved_sites(inv, table):
     """Sites that left a function (`deficit`) can account for the same number of sites of the same kind that appear
     in another function of the same crate: a function was split, merged, renamed or its code moved.  Returns
@@ -191,7 +202,7 @@ def moved_sites(inv, table):
     for key, have in table.items():
         n = inv.get(key, 0)
         if have[0] > n:
-            deficit[(crate_of(key[0]), key[1])] += have[0] - n
+            deficit[(crate_of(key[0]), kind_family(key[1]))] += have[0] - n
     return deficit
 
 
@@ -223,12 +234,12 @@ def run(ctx):
     for key, n in inv.items():
         have = table.get(key)
         if have is None or n > have[0]:
-            excess[(crate_of(key[0]), key[1])] += n - (have[0] if have else 0)
+            excess[(crate_of(key[0]), kind_family(key[1]))] += n - (have[0] if have else 0)
     for key, n in sorted(inv.items()):
         fnp, kind = key
         have = table.get(key)
         where = "%s:%s" % lines[key][0]
-        ck = (crate_of(fnp), kind)
+        ck = (crate_of(fnp), kind_family(kind))
         if (have is None or n > have[0]) and excess[ck] <= budget[ck]:
             # as many sites of this kind left other functions of the crate as appeared here: code was moved
             classes["moved"] += n
